@@ -34,3 +34,26 @@ ASSUMPTIONS = {
             "tempo is restricted so that every normalised index fits in a 32-bit int with margin (|index| < 2^30); "
             "indices beyond that cannot be represented by beatgrid_marker and are outside the generated domain"],
 }
+
+# ---------------------------------------------------------------------------------------------------------
+# Text for MANIFEST.json (driver/gen_manifest.py regenerates the file from this module).
+ENGINES = [
+    dict(name="numeric_pbt", path="harness/numeric_pbt.cpp", serves_properties=["C19", "C20"],
+         kind_free_text="rapidcheck-driven generated inputs vs exact-integer reference and validity predicates"),
+]
+
+MANIFEST_TEXT = {
+    "C19": dict(engine="numeric_pbt", design_ref="DESIGN.md 6/C19",
+                technique="property-based testing: generated (count, rate) pairs vs exact 128-bit integer reference + metamorphic monotonicity",
+                text="Generated-input search (boundary tables + uniform draws over the stated domain) comparing the compiled functions "
+                     "with an exact integer reference; not a proof over the integers.",
+                note="Trusts IEEE-754 arithmetic of the harness and the reference written from the property statement."),
+    "C20": dict(engine="numeric_pbt", design_ref="DESIGN.md 6/C20",
+                technique="property-based testing: generated beat grids vs independent trimming + validity predicate + idempotence",
+                text="Generated grids of every placement shape against an independently written trimming and a validity predicate "
+                     "(index -4, end bracket, tempo kept, interior bit-identical, idempotent).",
+                note="Grids strictly increasing, indices within 32-bit range; floating-point tolerance 1e-9 relative as stated in DESIGN."),
+}
+
+_WIP = "check under construction in this session (harness not yet committed); will be claimed once it runs green and has been sensitivity-tested"
+NOT_APPLICABLE = {p: _WIP for p in ["C%02d" % i for i in range(1, 19)]}
